@@ -401,7 +401,7 @@ verify_reopen(World& w, const Op& op)
         sim::fail("reopen:geometry", "geometry read back differs:\n%s\nvs written\n%s",
                   rd->get_proj_data_info_sptr()->parameter_info().c_str(), w.pdi->parameter_info().c_str());
     }
-  if (!(rd->get_exam_info() == *w.exam))
+  if (!(rd->get_exam_info() == *w.exam) || !vu::same_frames(rd->get_exam_info().time_frame_definitions, w.exam->time_frame_definitions))
     sim::fail("reopen:exam_info", "exam info read back differs: %s vs %s", rd->get_exam_info().parameter_info().c_str(),
               w.exam->parameter_info().c_str());
   try
